@@ -64,17 +64,28 @@ def _contents(c):
     return [x for kv in items for x in kv]
 
 
-def replay_transition(cls, t):
+VALUATIONS = [{"v1": "v1", "v2": "v2"}, {"v1": None, "v2": 0}, {"v1": "", "v2": False}]
+
+
+def replay_transition(cls, t, val=None):
+    """`val` concretises the model's values (falsy / None values are legitimate cache contents)."""
+    val = val or VALUATIONS[0]
+    cv = lambda seq: [val.get(x, x) if isinstance(x, str) else x for x in seq]
     c = cls(t["cap"])
     for k, v in _pairs(t["pre"]):
-        c[k] = v
-    if _contents(c) != t["pre"]:
+        c[k] = val.get(v, v)
+    if _contents(c) != cv(t["pre"]):
         return "cannot establish pre-state", _contents(c)
-    ret = _apply(c, t["op"], t["k"], t["v"])
-    if ret != t["ret"]:
+    ret = _apply(c, t["op"], t["k"], val.get(t["v"], t["v"]))
+    want = cv(t["ret"])
+    if t["op"] == "getd":
+        # .get() answers None both for a miss and for a stored None
+        ret = [None if x == "!None" else x for x in ret]
+        want = [None if x == "!None" else x for x in want]
+    if ret != want:
         return "return value", ret
     post = _contents(c)
-    if post != t["post"]:
+    if post != cv(t["post"]):
         return "post-state order/contents", post
     if len(c) > t["cap"]:
         return "capacity exceeded", len(c)
@@ -131,6 +142,7 @@ def _threaded_workload(cls, cap, nthreads, nops, rnd, rec, keys, vals):
             except Exception as ex:  # pragma: no cover
                 errs.append(repr(ex))
 
+    rec.threaded = nthreads > 1
     ths = [threading.Thread(target=worker, args=(random.Random(rnd.random()),)) for _ in range(nthreads)]
     for t in ths:
         t.start()
@@ -165,14 +177,14 @@ def run(tier: str) -> int:
             continue
         require_covered(r, ["Get", "GetDefault", "SetC", "Del", "Member", "Length", "List"])
         for t in r.emitted:
-            for cls in (LRUCache, ThreadSafeLRUCache):
-                why, got = replay_transition(cls, t)
-                ck.case((cls.__name__, t["cap"], t["op"], t["k"], t["v"], tuple(t["pre"])),
+            for cls, val in [(c_, v_) for c_ in (LRUCache, ThreadSafeLRUCache) for v_ in VALUATIONS]:
+                why, got = replay_transition(cls, t, val)
+                ck.case((cls.__name__, str(val), t["cap"], t["op"], t["k"], t["v"], tuple(t["pre"])),
                         sample={"class": cls.__name__, **t} if t["op"] == "set" and len(t["pre"]) == 2 * cap else None)
                 ck.validated()
                 if why:
                     ck.fail(f"{cls.__name__}: {why} differs from LRUCache.tla",
-                            {"class": cls.__name__, "transition": t, "observed": got},
+                            {"class": cls.__name__, "transition": t, "valuation": val, "observed": got},
                             sig=f"seq:{cls.__name__}:{t['op']}:{why}")
     # ---- B: interleavings ---------------------------------------------------------------
     for cap in (1, 2):
@@ -266,7 +278,7 @@ def replay(path):
     d = json.load(open(path))["detail"]
     if "transition" in d:
         cls = {"LRUCache": LRUCache, "ThreadSafeLRUCache": ThreadSafeLRUCache}[d["class"]]
-        print(replay_transition(cls, d["transition"]))
+        print(replay_transition(cls, d["transition"], d.get("valuation")))
     elif "steps" in d:
         print(replay_interleaving(ThreadSafeLRUCache, d))
     else:
